@@ -105,7 +105,7 @@ func panicText(tp targetPanic) string {
 
 // fail records a failure of the current path.
 func (e *Engine) failNow(kind, label, detail string) {
-	f := Failure{Kind: kind, Label: label, Tags: append([]string{}, e.tags...),
+	f := Failure{Kind: kind, Label: label, Tags: append([]string{}, e.tags...), SchedOrder: append([]string{}, e.schedTrace...),
 		Choices: append([]ChoiceRec{}, e.choices...), Trace: append([]int64{}, e.taken...), Sched: e.schedDec > 0}
 	if detail != "" {
 		f.Tags = append(f.Tags, "detail="+detail)
@@ -248,6 +248,20 @@ func init() {
 	})
 	api("verifWaitIdle", func(e *Engine, a []value) value { return int64(e.waitIdle()) })
 	api("verifYield", func(e *Engine, a []value) value { e.yield(); return nil })
+	api("verifGo", func(e *Engine, a []value) value {
+		e.cur.label = int(e.concInt(a[0], "goroutine label"))
+		e.yieldNow()
+		// recorded when the goroutine proceeds past the point (not when it arrives): the native
+		// sequencer lets goroutines pass their points in exactly this order
+		e.schedTrace = append(e.schedTrace, strconv.Itoa(e.cur.label)+":start")
+		return nil
+	})
+	api("verifGoDone", func(e *Engine, a []value) value { return nil })
+	api("verifSched", func(e *Engine, a []value) value {
+		e.yieldNow()
+		e.schedTrace = append(e.schedTrace, strconv.Itoa(e.cur.label)+":"+e.concStr(a[0], "sched label"))
+		return nil
+	})
 	api("verifSymbolic", func(e *Engine, a []value) value { return true })
 	api("verifPrint", func(e *Engine, a []value) value {
 		fmt.Printf("  PRINT %v %v\n", a[0], fmtVal(a[1]))
